@@ -325,4 +325,36 @@ example : (genStep (mkIndicator epsLeast) (fun x => [x.foldl (· + ·) 0, 3 - x.
       [{ x := [1], pen := [1, 2], unpen := [1, 2] }, { x := [2], pen := [2, 1], unpen := [2, 1] }] [7, 0]).map (·.x) = [[0], [3]] := by
   decide
 
+/-! ## elitism of the truncation `std::partition; erase(begin + mu, end)` -/
+
+/-- **C14 (the survivors are exactly the selected individuals)**: for every population `l` whose
+`selected()` flags mark exactly `mu` individuals (what `IndicatorBasedSelection` delivers:
+`selection_count_modelled_indicators`), libstdc++'s `std::partition` followed by
+`erase(begin + mu, end)` keeps precisely the flagged individuals (as a multiset) and nothing else.
+Together with `selection_rank_monotone` / `selection_keeps_better_fronts` (the flags never prefer
+a worse non-domination rank) this is the elitism clause for NSGA-II, NSGA-III and MO-CMA-ES. -/
+theorem truncation_keeps_exactly_the_selected (l : List Indiv) (mu : Nat)
+    (hcount : l.countP (·.sel) = mu) :
+    (∀ k ∈ (stdPartition l.length l).take mu, k.sel = true) ∧
+    ((stdPartition l.length l).take mu).Perm (l.filter (·.sel)) := by
+  obtain ⟨S, U, e, hS, hU⟩ := stdPartition_blocks l.length l (Nat.le_refl _)
+  have hperm := stdPartition_perm l.length l
+  rw [e] at hperm
+  have hfS : S.filter (·.sel) = S := List.filter_eq_self.mpr (fun a ha => hS a ha)
+  have hfU : U.filter (·.sel) = [] := List.filter_eq_nil_iff.mpr (fun a ha => by simp [hU a ha])
+  have hfilt : (S ++ U).filter (·.sel) = S := by rw [List.filter_append, hfS, hfU]; simp
+  have hlen : S.length = mu := by
+    rw [← hcount, List.countP_eq_length_filter, ← (hperm.filter _).length_eq, hfilt]
+  have htake : (stdPartition l.length l).take mu = S := by
+    rw [e, ← hlen]; simp
+  rw [htake]
+  refine ⟨hS, ?_⟩
+  have := hperm.filter (·.sel)
+  rw [hfilt] at this
+  exact this
+
+example : (stdPartition 4 [{ x := [0], pen := [], unpen := [], sel := false }, { x := [1], pen := [], unpen := [], sel := true },
+      { x := [2], pen := [], unpen := [], sel := false }, { x := [3], pen := [], unpen := [], sel := true }]).map (·.x) =
+    [[3], [1], [2], [0]] := by decide
+
 end SharkVerif.C14
